@@ -251,11 +251,13 @@ class Wire:
             raise OSError('port unusable (0 or beyond 65535)')
         outcome, delay = self.script(a) if self.script is not None else ('ok', 0)
         a.outcome = outcome
-        if outcome == 'hang':
-            await self.loop.create_future()
-        if delay:
-            await asyncio.sleep(delay)
-        a.t_end = self.loop.time()
+        try:
+            if outcome == 'hang':
+                await self.loop.create_future()
+            if delay:
+                await asyncio.sleep(delay)
+        finally:
+            a.t_end = self.loop.time()      # (also when the caller gives up: time-out, cancellation)
         if outcome == 'refused':
             raise ConnectionRefusedError('refused (scripted)')
         r = FakeReader(self.symbolic)
